@@ -108,7 +108,7 @@ def solve(threads):
     # both `levels` signatures the library itself produces: int64 array (scalar level) and list
     for lv in (2, [1, 2]):
         steady_state_transport_solver(np.ones((6, 8)), z, prof, (80.0, 60.0), lv, modes=(4, 4), footprint=True, halo=20.0, precision="double")
-for t in ((1, 4) if order == "serial_first" else (4, 1)):
+for t in {"serial_first": (1, 4), "parallel_first": (4, 1), "parallel_only": (4,)}[order]:
     solve(t)
 os._exit(0)
 """
@@ -120,7 +120,7 @@ def prepare_numba_states(log=print):
     key = source_key()
     base = os.path.join(VERIF, ".work", "numba")
     final = os.path.join(base, key)
-    states = {s: os.path.join(final, s) for s in ("serial_first", "parallel_first")}
+    states = {s: os.path.join(final, s) for s in ("serial_first", "parallel_first", "parallel_only")}
     if os.path.isdir(final) and all(os.path.isdir(p) and os.listdir(p) for p in states.values()):
         return states, 0.0
     t0 = time.monotonic()
